@@ -265,15 +265,15 @@ fn case(g: &mut Gen, ctx: &mut Ctx) -> CaseResult {
         let fallible = g.bool();
         let out: Result<Option<Vec<u8>>, String> = match carrier {
             0 => {
-                let b = CoseEncryptBuilder::new().protected(h.clone());
+                let b = crate::builder_with_headers!(CoseEncryptBuilder, g, h);
                 crate::run::catch(|| if fallible { b.try_create_ciphertext(&plaintext, &aad, |p, a| -> Result<Vec<u8>, ()> { Ok(enc(p, a)) }).ok().and_then(|b| b.build().ciphertext) } else { b.create_ciphertext(&plaintext, &aad, enc).build().ciphertext })
             }
             1 => {
-                let b = CoseEncrypt0Builder::new().protected(h.clone());
+                let b = crate::builder_with_headers!(CoseEncrypt0Builder, g, h);
                 crate::run::catch(|| if fallible { b.try_create_ciphertext(&plaintext, &aad, |p, a| -> Result<Vec<u8>, ()> { Ok(enc(p, a)) }).ok().and_then(|b| b.build().ciphertext) } else { b.create_ciphertext(&plaintext, &aad, enc).build().ciphertext })
             }
             _ => {
-                let b = CoseRecipientBuilder::new().protected(h.clone());
+                let b = crate::builder_with_headers!(CoseRecipientBuilder, g, h);
                 crate::run::catch(|| if fallible { b.try_create_ciphertext(CTXS[ci], &plaintext, &aad, |p, a| -> Result<Vec<u8>, ()> { Ok(enc(p, a)) }).ok().and_then(|b| b.build().ciphertext) } else { b.create_ciphertext(CTXS[ci], &plaintext, &aad, enc).build().ciphertext })
             }
         };
